@@ -63,6 +63,15 @@ def judge(ctx, pid, trace, ntrees, what):
             ctx.signatures.add((e["op"], e["err"], len(e["blocks"]), o["head"] == o["hhead"], len(e.get("imported", []))))
     ctx.samples = [{k: (x[k] if k != "obs" else {"head": x["obs"]["head"], "hhead": x["obs"]["hhead"], "canonH": x["obs"]["canonH"][:12]})
                     for k in x if k not in ("blocks",) or x["e"] != "tree"} for x in evs if x["e"] == "op"][:6]
+    listed = {f["id"] for f in vlib.known_for(pid)}
+    tags = {}
+    for tag, line in v.known:
+        tags.setdefault(tag, []).append(line)
+    for tag, lines in tags.items():
+        if tag in listed and tag == "D18":
+            ctx.known_finding("D18 ghost state: a side block stored without execution on a restarted pruning node became canonical through a stored sibling state root; it has no receipts (%d observation(s), first at trace line %d)" % (len(lines), lines[0]))
+        else:
+            ctx.violation("unlisted known-finding tag %s at line %d" % (tag, lines[0]), trace)
     if v.accepted:
         ctx.traces_validated += sum(1 for e in evs if e["e"] == "run")
     else:
